@@ -108,12 +108,22 @@ func genVariantModule(r *hx.Rand, npkgs int) []SrcFile {
 		}
 		a.WriteString("type t2 struct {\n\ta int\n}\n")
 		bfile.WriteString("type t3 struct {\n\ta int\n}\n")
-		out = append(out, SrcFile{pk + "/a.go", a.String()}, SrcFile{pk + "/b.go", bfile.String()})
 		hasIn, hasExt := r.Chance(75), r.Chance(50)
+		if k == 0 {
+			hasIn = true
+		}
+		lineRefs := []string(nil)
+		if hasIn {
+			// objects used only by the in-package test, one before and one after a //line directive (the key is built
+			// from the raw position, the problem is printed at the adjusted one), and a truly unused one after it
+			bfile.WriteString("\nfunc beforeLine() {}\n\n//line p_tmpl.go:100\nfunc viaLine() {}\n\nfunc viaLineUnused() {}\n")
+			lineRefs = []string{"beforeLine()", "viaLine()"}
+		}
+		out = append(out, SrcFile{pk + "/a.go", a.String()}, SrcFile{pk + "/b.go", bfile.String()})
 		if hasIn {
 			var t strings.Builder
 			t.WriteString("package " + pk + "\n\nimport \"testing\"\n\n")
-			t.WriteString("func TestA(t *testing.T) {\n" + refs(1+r.Intn(4), []string{"th0()", "_ = tv0"}) + "}\n\n")
+			t.WriteString("func TestA(t *testing.T) {\n\t" + strings.Join(lineRefs, "\n\t") + "\n" + refs(1+r.Intn(4), []string{"th0()", "_ = tv0"}) + "}\n\n")
 			t.WriteString("func th0() {\n" + refs(r.Intn(2), nil) + "}\n\nfunc th1() {}\n\nvar tv0 int\n\n")
 			if r.Bool() {
 				// sink: a write in a test file counts as a use
@@ -250,7 +260,8 @@ func RunVariants(r *hx.Rand, dir, staticcheck string, npkgs int) *VariantOutput 
 func coqObjs(objs []unused.Object, root string) string {
 	var parts []string
 	for _, o := range objs {
-		parts = append(parts, fmt.Sprintf("mkObj %s %d %d %s %s", CoqString(strings.TrimPrefix(o.Position.Filename, root+"/")), o.Position.Line, o.Position.Column, CoqString(o.Name), CoqString(o.Kind)))
+		parts = append(parts, fmt.Sprintf("mkObj %s %d %d %s %s %s %d %d", CoqString(strings.TrimPrefix(o.Position.Filename, root+"/")), o.Position.Line, o.Position.Column, CoqString(o.Name), CoqString(o.Kind),
+			CoqString(strings.TrimPrefix(o.DisplayPosition.Filename, root+"/")), o.DisplayPosition.Line, o.DisplayPosition.Column))
 	}
 	return "[" + strings.Join(parts, "; ") + "]"
 }
